@@ -412,13 +412,13 @@ def run_mixed(ctx, corr):
         if g is None:
             corr.disagreements.append({'kind': 'oracle harness', 'what': f'gcc binary printed nothing for {key}'})
             return
-        want_size = str(FMT[ct]['size']) if name in dict(O.MIXOPS) else '4'
+        want_size = str(FMT[ct]['size']) if name in dict(O.MIXOPS) or name in dict(O.MIXASG) else '4'
         if g[0] != want_size:
             corr.disagreements.append({'kind': 'spec vs gcc', 'what': f'sizeof of {t1} {name} {t2}: C11 6.3.1.8 says {want_size}, gcc {g[0]}'})
             return
         corr.nontrivial.add(f'mixed {t1} {t2} {name} {a:x} {b:x}')
         same = c is not None and c == g
-        if not same and c is not None and c[0] == g[0] and name in ('add', 'sub', 'mul', 'div') and t1 in FMT and t2 in FMT \
+        if not same and c is not None and c[0] == g[0] and name in ('add', 'sub', 'mul', 'div', 'asg_add', 'asg_sub', 'asg_mul', 'asg_div') and t1 in FMT and t2 in FMT \
                 and is_nan(t1, a) and is_nan(t2, b):
             corr.count('two_nan_payload_not_compared')
             same = is_nan(ct, O.hex_to_int(c[1])) and is_nan(ct, O.hex_to_int(g[1]))
@@ -426,7 +426,7 @@ def run_mixed(ctx, corr):
             corr.count(f'mismatch:mixed {t1}.{t2}.{name}')
             if nv < MAXV:
                 nv += 1
-                violation(corr, f'`{dict(O.MIXOPS + O.MIXRELS)[name]}` with a: {O.CNAME[t1]} = {describe(t1, a)}, b: {O.CNAME[t2]} = {describe(t2, b)} '
+                violation(corr, f'`{dict(O.MIXOPS + O.MIXRELS + O.MIXASG)[name]}` with a: {O.CNAME[t1]} = {describe(t1, a)}, b: {O.CNAME[t2]} = {describe(t2, b)} '
                           f'(common type {O.CNAME[ct]}): different sizeof or result bytes', O.mixed_minimal(t1, t2, name, a, b, ct),
                           f'{g[0]} {g[1]}', f'{c[0]} {c[1]}' if c else 'no output')
     corr.sample({'mixed operands': {'pairs': len(pairs), 'operators': [n for n, _ in O.MIXOPS + O.MIXRELS]}})
